@@ -817,39 +817,67 @@ fn aliased_inputs(eng: &mut Eng) {
 fn value_grid(e: &mut Eng) {
     const G: [f32; 16] = [0.0, -0.0, 1.0, -1.0, 2.0, 0.5, 3.0, -2.5, 1e-3, 100.0, f32::MIN_POSITIVE, 1e30, -1e30, 16777216.0, 0.1, 7.0];
     let same = |a: f32, b: f32| a.to_bits() == b.to_bits() || (a.is_nan() && b.is_nan());
+    // (category of input 1, category of input 2): the special value of one input must not change what
+    // the absent / error rules say about the other
+    const CC: [(In, In); 9] = [(In::P, In::P), (In::P, In::N), (In::N, In::P), (In::N, In::N), (In::P, In::E(1)), (In::E(1), In::P), (In::N, In::E(1)), (In::E(1), In::N), (In::E(1), In::E(2))];
+    #[derive(Clone, Copy, PartialEq, Debug)]
+    enum W {
+        None,
+        Err(u8),
+        ErrOrNone(u8),
+        Val(i64, f32),
+    }
     for &x in &G {
         for &y in &G {
-            let a = rc(Scr::<f32>::new(Ok(Some(Datum::new(Time(3), x)))));
-            let b = rc(Scr::<f32>::new(Ok(Some(Datum::new(Time(8), y)))));
-            let r = guard(|| {
-                [
-                    Sum2::new(rf(&a), rf(&b)).get(),
-                    Product2::new(rf(&a), rf(&b)).get(),
-                    DifferenceStream::new(rf(&a), rf(&b)).get(),
-                    QuotientStream::new(rf(&a), rf(&b)).get(),
-                    ExponentStream::new(rf(&a), rf(&b)).get(),
-                    SumStream::new([dyn_getter(&a), dyn_getter(&b), dyn_getter(&a)]).get(),
-                    ProductStream::new([dyn_getter(&a), dyn_getter(&b), dyn_getter(&a)]).get(),
-                ]
-            });
-            let want = [x + y, x * y, x - y, x / y, crate::refmodels::backend_powf(x, y), x + y + x, x * y * x];
-            let names = ["sum2", "product2", "difference", "quotient", "exponent", "sum3", "product3"];
-            e.executions += 7;
-            e.states += 7;
-            e.transitions += 7;
-            e.checks += 7;
-            e.nontrivial += 7;
-            match r {
-                Err(m) => e.violation("comb:value-grid:panic", 1, || format!("present inputs {:?} and {:?}: a combinator panicked: {}", x, y, m)),
-                Ok(got) => {
-                    for k in 0..7 {
-                        let ok = match &got[k] {
-                            Ok(Some(d)) => d.time == Time(8) && same(d.value, want[k]),
-                            _ => false,
-                        };
-                        e.outcome(h64(&(k, want[k].to_bits())));
-                        if !ok {
-                            e.violation(&format!("comb:{}:value", names[k]), 1, || format!("{} of present inputs {:?} (t=3) and {:?} (t=8) gives {:?}, the operator on the raw values gives {:?} (bits {:#x}) at t=8", names[k], x, y, got[k], want[k], want[k].to_bits()));
+            for &(c0, c1) in &CC {
+                let a = rc(Scr::<f32>::new(mk(c0, 3, x)));
+                let b = rc(Scr::<f32>::new(mk(c1, 8, y)));
+                let r = guard(|| {
+                    [
+                        Sum2::new(rf(&a), rf(&b)).get(),
+                        Product2::new(rf(&a), rf(&b)).get(),
+                        DifferenceStream::new(rf(&a), rf(&b)).get(),
+                        QuotientStream::new(rf(&a), rf(&b)).get(),
+                        ExponentStream::new(rf(&a), rf(&b)).get(),
+                        SumStream::new([dyn_getter(&a), dyn_getter(&b), dyn_getter(&a)]).get(),
+                        ProductStream::new([dyn_getter(&a), dyn_getter(&b), dyn_getter(&a)]).get(),
+                    ]
+                });
+                let ops: [f32; 7] = [x + y, x * y, x - y, x / y, crate::refmodels::backend_powf(x, y), x + y + x, x * y * x];
+                let names = ["sum2", "product2", "difference", "quotient", "exponent", "sum3", "product3"];
+                let want = |k: usize| -> W {
+                    let skipping = k <= 1 || k >= 5; // sums and products skip absent inputs
+                    match (c0, c1) {
+                        (In::E(i), _) => W::Err(i),
+                        (In::N, In::E(i)) => if skipping { W::Err(i) } else { W::ErrOrNone(i) },
+                        (In::P, In::E(i)) => W::Err(i),
+                        (In::N, In::N) => W::None,
+                        (In::N, In::P) => if skipping { W::Val(8, y) } else { W::None },
+                        (In::P, In::N) => if k >= 5 { W::Val(3, if k == 5 { x + x } else { x * x }) } else { W::Val(3, x) },
+                        (In::P, In::P) => W::Val(8, ops[k]),
+                    }
+                };
+                e.executions += 7;
+                e.states += 7;
+                e.transitions += 7;
+                e.checks += 7;
+                e.nontrivial += 7;
+                match r {
+                    Err(m) => e.violation("comb:value-grid:panic", 1, || format!("inputs {:?} ({}) and {:?} ({}): a combinator panicked: {}", x, cat_name(&[c0]), y, cat_name(&[c1]), m)),
+                    Ok(got) => {
+                        for k in 0..7 {
+                            let w = want(k);
+                            let ok = match (&got[k], w) {
+                                (Ok(Some(d)), W::Val(t, v)) => d.time == Time(t) && same(d.value, v),
+                                (Ok(None), W::None) | (Ok(None), W::ErrOrNone(_)) => true,
+                                (Err(er), W::Err(i)) | (Err(er), W::ErrOrNone(i)) => *er == err_of(i),
+                                _ => false,
+                            };
+                            e.outcome(h64(&(k, format!("{:?}", w))));
+                            if !ok {
+                                let cls = if (c0, c1) == (In::P, In::P) { "value" } else { "value-grid-category" };
+                                e.violation(&format!("comb:{}:{}", names[k], cls), 1, || format!("{} of input 1 = {:?} at t=3 made {} and input 2 = {:?} at t=8 made {} gives {:?}, expected {:?}", names[k], x, cat_name(&[c0]), y, cat_name(&[c1]), got[k], w));
+                            }
                         }
                     }
                 }
@@ -876,8 +904,8 @@ pub fn run(ctx: &Ctx) -> Vec<Eng> {
     e2.bounds.push_str("; plus aliasing: one getter object (present / absent / erroring) in every slot of the n-ary streams (arities 2..5), the same around a different getter, and as both inputs of the two-input arithmetic forms");
     let mut e3 = Eng::new(
         "c02-value-grid",
-        "Sum2, Product2, difference, quotient, exponent and the 3-ary sum and product with all inputs present, over every ordered pair of a 16-value grid of special values (signed zeros, +-1, 2, 0.5, 3, -2.5, 1e-3, 100, the smallest normal, +-1e30, 2^24, 0.1, 7): value bit-identical to the raw operator on the values in input order (exponent: to the build's own powf called directly; NaN matches NaN), time = the newer input's",
-        "16 x 16 value pairs x 7 combinators",
+        "Sum2, Product2, difference, quotient, exponent and the 3-ary sum and product, each input present / absent / erroring (9 category pairs), over every ordered pair of a 16-value grid of special values (signed zeros, +-1, 2, 0.5, 3, -2.5, 1e-3, 100, the smallest normal, +-1e30, 2^24, 0.1, 7): value bit-identical to the raw operator on the values in input order (exponent: to the build's own powf called directly; NaN matches NaN), time = the newer input's; with an absent or erroring input the documented absent / error rule, whatever special value the other input holds",
+        "16 x 16 value pairs x 9 category pairs x 7 combinators",
     );
     value_grid(&mut e3);
     vec![e1, e2, e3]
